@@ -44,7 +44,7 @@ ELEM_LOCALS = ('a', 'b', 'c')
 ATTR_LOCALS = ('x', 'y', 'id')
 TEXTS = (None, None, '', 't', ' ', '1', 'x y')
 PI_TARGETS = ('x', 'y', 'pi', 'xml-stylesheet')
-PI_TARGETS_FN = ('pi', 'exp', 'text', 'data', 'x', 'y', 'node', 'comment')
+PI_TARGETS_FN = ('pi', 'exp', 'text', 'data', 'x', 'y', 'node', 'comment', 'div', 'if')
 COMMENTS = ('', 'c', 'x y', '1')
 ATTR_VALUES = ('', 'v', '1', 'x y', 't')
 
@@ -358,3 +358,121 @@ def to_xml(spec) -> str:
             s += elem(c, sc) if c['k'] == 'e' else misc(c)
         return s + '</%s>' % name(e['ns'], e['n'], sc) + ('[]' if e['tl'] == '' else esc(e['tl'] or ''))
     return ''.join(misc(m) for m in spec['pre']) + elem(spec['root'], {}) + ''.join(misc(m) for m in spec['post'])
+
+
+# --------------------------------------------------------------------------
+# deterministic greedy minimisation (used instead of hypothesis' shrinker: batched cases are large)
+# --------------------------------------------------------------------------
+
+def _spec_edits(spec):
+    """candidate smaller specs, biggest cuts first"""
+    import copy
+
+    def elems(e, path):
+        yield e, path
+        for i, c in enumerate(e['c']):
+            if c['k'] == 'e':
+                yield from elems(c, path + (i,))
+
+    def at(s, path):
+        e = s['root']
+        for i in path:
+            e = e['c'][i]
+        return e
+
+    if spec['pre'] or spec['post']:
+        s = copy.deepcopy(spec)
+        s['pre'], s['post'] = [], []
+        yield s
+    root = spec['root']
+    for i, c in enumerate(root['c']):
+        if c['k'] == 'e' and not spec['pre'] and not spec['post']:
+            s = copy.deepcopy(spec)
+            s['root'] = copy.deepcopy(c)
+            yield s
+    for e, path in list(elems(root, ())):
+        for i in reversed(range(len(e['c']))):
+            s = copy.deepcopy(spec)
+            del at(s, path)['c'][i]
+            yield s
+    for e, path in list(elems(root, ())):
+        for i in reversed(range(len(e['a']))):
+            s = copy.deepcopy(spec)
+            del at(s, path)['a'][i]
+            yield s
+        for i in reversed(range(len(e['decl']))):
+            s = copy.deepcopy(spec)
+            del at(s, path)['decl'][i]
+            yield s
+        for key in ('t', 'tl', 'ns'):
+            if e[key] is not None:
+                s = copy.deepcopy(spec)
+                at(s, path)[key] = None
+                yield s
+        for i, c in enumerate(e['c']):
+            if c['k'] != 'e' and c['tl'] is not None:
+                s = copy.deepcopy(spec)
+                at(s, path)['c'][i]['tl'] = None
+                yield s
+
+
+def minimize_spec(spec, still_fails, budget=150):
+    """greedy: apply the first edit that keeps `still_fails(spec)` true, restart; stops at a fixpoint or budget."""
+    calls = 0
+    changed = True
+    while changed and calls < budget:
+        changed = False
+        for cand in _spec_edits(spec):
+            cand = normalize(cand)
+            if cand == spec:
+                continue
+            calls += 1
+            if still_fails(cand):
+                spec, changed = cand, True
+                break
+            if calls >= budget:
+                break
+    return spec
+
+
+def minimize_case(case, judge_fn, bucket, budget=200, list_keys=('cfgs', 'paths', 'ops')):
+    """case = {'spec': ..., <list fields>...}: keep one element per list field, then minimise the spec."""
+    def fails(c):
+        return any(d.bucket == bucket for d in judge_fn(c))
+
+    for key in list_keys:
+        if key in case and len(case[key]) > 1:
+            for item in case[key]:
+                c = dict(case, **{key: [item]})
+                if fails(c):
+                    case = c
+                    break
+    spec = minimize_spec(case['spec'], lambda s: fails(dict(case, spec=s)), budget)
+    case = dict(case, spec=spec)
+    for d in judge_fn(case):
+        if d.bucket == bucket:
+            return case, d
+    return None
+
+
+class _Stop(Exception):
+    pass
+
+
+def find_and_minimize(strategy, judge_fn, bucket, n, seed, budget=200, list_keys=('cfgs', 'paths', 'ops')):
+    """replay the seeded generation until the first case showing `bucket`, then minimise it greedily."""
+    from vp.core import hyp_collect
+    found = []
+
+    def body(case):
+        if any(d.bucket == bucket for d in judge_fn(case)):
+            found.append(case)
+            raise _Stop()
+
+    try:
+        hyp_collect(strategy, body, n, seed)
+    except _Stop:
+        pass
+    if not found:
+        return None
+    return minimize_case(found[0], judge_fn, bucket, budget, list_keys)
